@@ -1,7 +1,7 @@
 """Per-property configuration of bin/check."""
 
 NOT_APPLICABLE = {}
-HOOK_COMMITS = []
+HOOK_COMMITS = ["321e58c", "2cc3ec1", "1b3310c"]
 
 ALLOWED_AXIOMS = {"propext", "Classical.choice", "Quot.sound"}
 
@@ -388,3 +388,34 @@ CHECKS["C05"] = {
     "trusted": ["in-process DOM (shim/web-sys) instead of a browser", "hook cfg(sycamore_verif_dom): back-end selection on the native target"],
     "assumptions": ["the contract of the reactive layer (C01-C04) for the effects behind dynamic parts"],
 }
+
+# seeded change C01-marks-reset-late showed that C01/C02 must also run programs whose effects write
+# signals (nested propagations): use all three generator profiles; C03 also owns the subscriber-count class
+for _p in ("C01", "C02"):
+    CHECKS[_p]["engines"][0].pop("args", None)
+CHECKS["C03"]["classes"] = CHECKS["C03"]["classes"] + ["stale-subscribers"]
+
+# --- composition theorems delivered later: Keyed/Indexed as Lean theorems; justification of runs
+KD = "SycVerif.KeyedDom."
+CHECKS["C06"]["lean_modules"] = ["SycVerif.Props.C06", "SycVerif.Props.C07", "SycVerif.Props.C06Keyed"]
+CHECKS["C06"]["theorems"] += [KD + n for n in ["C06_keyed_region", "C06_keyed_history", "C06_keyed_history_born", "C06_indexed_region",
+                                                "C06_indexed_history", "C06_keyed_region_driver", "C06_indexed_region_driver"]]
+CHECKS["C06"]["status"] = ("full statement proved over the model: the diffing routine for all pairs and all siblings (C06_reconcile), and the Keyed / Indexed components as the composition "
+                           "list mapping + reconcile over EVERY history of duplicate-free (Keyed) / arbitrary (Indexed) lists: after every update the region between the markers shows the items in order, "
+                           "a retained key (Keyed) / index (Indexed) keeps the very node it was born with, removed items' nodes are detached, siblings untouched (C06_keyed_history, C06_keyed_history_born, C06_indexed_history)")
+CHECKS["C06"]["partial"] = []
+CHECKS["C06"]["manifest_note"] = CHECKS["C06"]["manifest_note"].replace(" The composition Keyed = map_keyed + reconcile is in the driver (executable), not a separate Lean theorem.",
+    " The composition Keyed = map_keyed + reconcile is a Lean theorem (Props/C06Keyed) about the same definitions the driver executes.")
+CHECKS["C02"]["lean_modules"] = CHECKS["C02"]["lean_modules"] + ["SycVerif.Props.C02Runs"]
+CHECKS["C02"]["theorems"] += [RX + n for n in ["C02_run_marks_dependents", "C02_selector_blocks", "C02_runs_justified", "C02_runs_only_if_read_changed",
+                                                "C02_unjustified_not_rerun", "C02_runs_justified_static"]]
+CHECKS["C02"]["status"] += ("; clause (iii) as theorems for branch-free AND branching bodies without late edges: every run of a propagation is justified by the written signal or by a tracked dependency "
+                            "that re-ran and reported a change (plain memos always, selectors only when the value differs), and a computation none of whose tracked dependencies changed is not re-run "
+                            "(C02_runs_justified, C02_runs_only_if_read_changed, C02_unjustified_not_rerun)")
+
+# every check of the reactive engine runs all generator profiles (pure, read forms, everything,
+# pure + effect writes): a change in one feature often shows only in combination with another
+for _p, _c in CHECKS.items():
+    for _e in _c.get("engines", []):
+        if _e.get("engine") == "reactive":
+            _e.pop("args", None)
